@@ -320,6 +320,17 @@ def check(ix, rep):
         if kf is not None:
             rep.analysed(kf)
             SS.check_compose(ix, rep, kf, which)
+    # a scan starts from its own initial value: scratch attributes of the dense offline visitor are written before they are read within one
+    # visit (an accumulator initialised before the operand is visited starts from what a nested once/historically left there: the sign flips)
+    from sa.rules import pure as _pure7, truthy as _tr7
+    for m_ in M.standard_monitors(ix):
+        if m_.kind == 'dense-offline':
+            _pure7.pure_handlers(ix, rep, m_)
+    _fs7 = []
+    for _m in sorted(ix.modules.values(), key=lambda m__: m__.name):
+        if '.dense_time.' in _m.name and 'antlr' not in _m.name:
+            _fs7 += list(_m.functions.values()) + [g_ for c_ in _m.classes.values() for g_ in c_.methods.values()]
+    rep.floor('dense-time functions that handle robustness values', _tr7.check_dense_values(ix, rep, _fs7, 'dense'), 20)
     explanation = (
         'Lattice-fragment argument. For each of the four monitors the operator summaries show (a) every comparison\'s robustness is the '
         'signed distance whose sign agrees with the Boolean comparison, (b) `not` is negation, (c) every other Boolean and temporal operator '
